@@ -4,11 +4,11 @@ package main
 // template of the emulator applied to a target key of every type (and a missing key).
 
 // fixtures: one key per type with fixed contents
-var fixKeys = []string{"ks", "kl", "kh", "kz"}
+var fixKeys = []string{"ks", "kl", "kh", "kz", "ke"}
 
 func fixtureOps(ttlMs string) []Op {
 	// ksrt holds key names: SORT ksrt BY * / GET * dereference the other fixture keys
-	ops := []Op{c("SET", "ks", "10"), c("RPUSH", "kl", "e", "f2"), c("HSET", "kh", "f", "1", "g", "x"), c("SADD", "kz", "m", "n2"), c("RPUSH", "ksrt", "ks", "kn", "kl")}
+	ops := []Op{c("SET", "ks", "10"), c("RPUSH", "kl", "e", "f2"), c("HSET", "kh", "f", "1", "g", "x"), c("SADD", "kz", "m", "n2"), c("RPUSH", "ksrt", "ks", "kn", "kl"), c("SET", "ke", "")} // ke: the empty string is a string
 	if ttlMs != "" {
 		for _, k := range fixKeys {
 			ops = append(ops, c("PEXPIRE", k, ttlMs))
@@ -18,7 +18,7 @@ func fixtureOps(ttlMs string) []Op {
 }
 
 func singletonOps() []Op {
-	return []Op{c("SET", "ks", "10"), c("RPUSH", "kl", "e"), c("HSET", "kh", "f", "1"), c("SADD", "kz", "m")}
+	return []Op{c("SET", "ks", "10"), c("RPUSH", "kl", "e"), c("HSET", "kh", "f", "1"), c("SADD", "kz", "m"), c("SET", "ke", "")}
 }
 
 // commandMatrix: every command with K standing for the target key. d is a destination key.
@@ -121,9 +121,9 @@ func matrixAll(targets []string) []Op {
 }
 
 func specC06(tier string) *SeqSpec {
-	s := &SeqSpec{ID: "C06", Sessions: 1, Keys: []string{"ks", "kl", "kh", "kz", "kn", "kn2", "kd"}, DBs: []int{0}, TTL: true}
+	s := &SeqSpec{ID: "C06", Sessions: 1, Keys: []string{"ks", "kl", "kh", "kz", "kn", "kn2", "kd", "ke"}, DBs: []int{0}, TTL: true}
 	s.Inits = [][]Op{fixtureOps(""), singletonOps(), fixtureOps("100000"), append(singletonOps(), c("SET", "kd", "old", "PX", "5000"))}
-	s.Sweep = append(matrixAll([]string{"kn", "ks", "kl", "kh", "kz"}), aliasMatrix()...)
+	s.Sweep = append(matrixAll([]string{"kn", "ks", "kl", "kh", "kz", "ke"}), aliasMatrix()...)
 	// chained: generic commands and removers, so that states "after the last element went away",
 	// "after a rename", "after a copy" are themselves starting points of the matrix
 	s.Alphabet = []Op{
@@ -183,7 +183,7 @@ func specC06glob(tier string) *SeqSpec {
 }
 
 func specC07(tier string) *SeqSpec {
-	s := &SeqSpec{ID: "C07", Sessions: 1, Keys: []string{"ks", "kl", "kh", "kz", "kn", "kn2", "kd"}, DBs: []int{0}, TTL: true}
+	s := &SeqSpec{ID: "C07", Sessions: 1, Keys: []string{"ks", "kl", "kh", "kz", "kn", "kn2", "kd", "ke"}, DBs: []int{0}, TTL: true}
 	adv := func(ms int64) Op { return Op{Args: []string{"PING"}, Advance: ms} }
 	s.Inits = [][]Op{
 		append(fixtureOps("100000"), adv(99998)),  // phase B: 2 ms before the deadline
@@ -196,7 +196,7 @@ func specC07(tier string) *SeqSpec {
 		append(append(fixtureOps(""), c("PEXPIRE", "ks", "1000"), c("PEXPIRE", "kh", "1000"), c("SET", "kd", "old", "PX", "500000")), adv(1500)),
 		append(singletonOps(), c("EXPIREAT", "kl", "1893456010"), c("PEXPIREAT", "kh", "1893456010000"), c("SET", "kz2", "x", "EXAT", "1893456010"), adv(10001)),
 	}
-	S := matrixAll([]string{"kn", "ks", "kl", "kh", "kz"})
+	S := matrixAll([]string{"kn", "ks", "kl", "kh", "kz", "ke"})
 	// complete TTL option matrix
 	for _, k := range []string{"ks", "kl", "kn"} {
 		for _, cmd := range [][]string{{"EXPIRE", "50"}, {"EXPIRE", "200"}, {"EXPIRE", "-5"}, {"PEXPIRE", "50000"}, {"PEXPIRE", "200000"}, {"PEXPIRE", "-5"}, {"EXPIREAT", "1893456050"}, {"EXPIREAT", "1893457200"}, {"EXPIREAT", "1000"}, {"PEXPIREAT", "1893456050000"}, {"PEXPIREAT", "1893459999000"}, {"PEXPIREAT", "1000"}} {
